@@ -50,7 +50,8 @@ def literal_alphabet(kind):
                     long_.append(head * (n - 1) + prev + last)
     long_ += ['0.' + '0' * 27 + '1', '0.' + '3' * 29 + '5', '1.' + '0' * 28 + '1', '1' + '0' * 29 + '1', '1' + '0' * 29,
               '9' * 28 + '.5', '9' * 28 + '.4', '1.' + '2345678901' * 3 + '25', '0.1', '0.2', '0.3', '2.675', '1.005', '0.15', '0.35',
-              '12345678901234567.891', '1' + '0' * 27 + '.5']
+              '12345678901234567.891', '1' + '0' * 27 + '.5', '12345678901234567890123456789.75', '9' * 29 + '.5', '1' + '0' * 29 + '.25',
+              '10000000000000000000000000001', '0.8000000000000000000000000004', '1.809', '0.8683873806956042304114426942']
     return lits, long_
 
 
@@ -193,6 +194,14 @@ def work(task):
                                 except X.NumError:
                                     want = 'error'
                                 expect_number(res, text, want, f'tree{op1}{op2}')
+                    # a non-literal head followed by two literal operands (re-association must not happen)
+                    for op in ('+', '*'):
+                        for head, fh in ((f'abs({a})', X.round_sig(abs(fa))), (f'({a} + 0)', X.add(fa, Fraction(0))), (f'max({a}, {a})', fa)):
+                            try:
+                                want = model_bin(op, model_bin(op, fh, fb), fc)
+                            except X.NumError:
+                                want = 'error'
+                            expect_number(res, f'{head} {op} {b} {op} {c}', want, f'chain{op}')
                     # a comparison of two sums: 0.1 + 0.2 == 0.3 style
                     s = X.add(fa, fb)
                     expect_bool(res, f'{a} + {b} == {c}', s == fc, 'cmp-sum')
